@@ -371,6 +371,8 @@ def _read_returns_section(
                     annotation = docstring.parent.annotation  # type: ignore[union-attr]
                 else:
                     raise ValueError
+                if len(items) == 1 and annotation.is_generator:
+                    annotation = annotation.slice.elements[2]
                 if len(items) > 1:
                     if annotation.is_tuple:
                         annotation = annotation.slice.elements[index]
